@@ -607,7 +607,8 @@ pub fn gen_c11(rng: &mut Rng, tier: Tier) -> Value {
                 "rep" => {
                     // (runs of 65 536+ equal observations are stored one by one by sort-and-merge: rare, they cost milliseconds)
                     let n = if rng.chance(0.004) { *rng.pick(&[65_536u64, 65_537, 100_000]) } else { *rng.pick(&[0u64, 1, 1, 2, 3, 7, 49, 1000, 1 << 20, 1 << 32]) };
-                    json!({"t": x * n as f64, "n": n})
+                    // (no occurrences: nothing is observed, whatever the total says - half of them carry a non-zero total)
+                    json!({"t": if n == 0 && x.to_bits() & 1 == 0 { x } else { x * n as f64 }, "n": n})
                 }
                 "multi" => {
                     // one value writing 1-4 observations of mixed kinds, empty Repeated entries anywhere
@@ -619,7 +620,7 @@ pub fn gen_c11(rng: &mut Rng, tier: Tier) -> Value {
                             0 => json!({"k":"u","v": y.round().min((1u64 << 43) as f64 - 1.0) as u64}),
                             1 => {
                                 let n = if rng.chance(0.002) { 70_000 } else { *rng.pick(&[0u64, 0, 1, 2, 49, 1000]) };
-                                json!({"k":"r","t": y * n as f64, "n": n})
+                                json!({"k":"r","t": if n == 0 && y.to_bits() & 1 == 0 { y } else { y * n as f64 }, "n": n})
                             }
                             _ => json!({"k":"f","v": y}),
                         });
